@@ -176,6 +176,10 @@ fn main() {
             let code = mon::c19::expect(&args[2], args.get(3).expect("out file"));
             std::process::exit(code);
         }
+        "seek-rounding" => {
+            let code = mon::c19::seek_rounding(&args[2], args.get(3).expect("out file"));
+            std::process::exit(code);
+        }
         "one" => {
             let case: serde_json::Value =
                 serde_json::from_str(args.get(3).expect("case json")).expect("json");
